@@ -46,11 +46,13 @@
 (* server (there a failed obligation rejects the trace).                   *)
 (*                                                                         *)
 (* Obligations (names as in DESIGN.md 4/C18):                              *)
-(*   InFlightCompleted  a request whose handler was entered gets a         *)
-(*                      complete, untruncated response (OkResponse,        *)
-(*                      OkEnd; ResponseTruncated has no action)            *)
+(*   InFlightCompleted  a request already received (handler entered) when  *)
+(*                      the shutdown is requested gets a complete,         *)
+(*                      untruncated response; any response that arrives is *)
+(*                      complete (OkResponse, OkResponseNone, OkEnd;       *)
+(*                      ResponseTruncated has no action)                   *)
 (*   InFlightAwaited    Shutdown returning nil before the exit wait time   *)
-(*                      elapsed => no handler is still running             *)
+(*                      elapsed => no such handler is still running        *)
 (*   AcceptedAwaited    ... and no connection whose acceptance was logged  *)
 (*                      (OnAccept on the standard transport, OnConnect on  *)
 (*                      both) before any Shutdown call is served later:    *)
@@ -121,10 +123,12 @@ VARIABLES status, listening, active, conn, avail, sent, cc, rflag, outq, hook, s
           \* observer
           oBegun, oReturned, oDial, oLate, oEnt, oExit, oAns, oMust, oHS, oHE, oCall, oRet, oBad,
           oPre,      \* connections whose acceptance was logged before any ShutdownCall
-          oEarly     \* some Shutdown call returned nil before the exit wait time: it vouches for oPre
+          oEarly,    \* some Shutdown call returned nil before the exit wait time: it vouches for oPre
+          oPreReq,   \* connections whose pending request was entered before any ShutdownCall ("already received")
+          oGone      \* connections whose client saw the connection end without a response
 
 mvars == <<status, listening, active, conn, avail, sent, cc, rflag, outq, hook, spawned, deadline, pc, ret, early, flipBy>>
-onew == <<oPre, oEarly>>
+onew == <<oPre, oEarly, oPreReq, oGone>>
 ovars == <<oBegun, oReturned, oDial, oLate, oEnt, oExit, oAns, oMust, oHS, oHE, oCall, oRet, onew>>
 vars == <<mvars, ovars, oBad>>
 
@@ -142,15 +146,22 @@ ObsInit(cs, ks) ==
     /\ oMust = [c \in cs |-> FALSE]
     /\ oHS = {} /\ oHE = {}
     /\ oCall = [k \in ks |-> "no"] /\ oRet = [k \in ks |-> None]
-    /\ oPre = {} /\ oEarly = FALSE
+    /\ oPre = {} /\ oEarly = FALSE /\ oPreReq = {} /\ oGone = {}
 
 \* Accept{c} / OnConnect{c}: logged by the callback the transport runs for an accepted connection, i.e. after the
 \* connection has been counted (standard: updateActive(1) precedes OnAccept; netpoll: OnConnect runs after the
 \* connection is registered and while it is locked for processing)
 \* (only acceptances logged before the first ShutdownCall are bound: they happen-before every Shutdown call)
-ObsAccept(c) == /\ oPre' = IF \A k \in DOMAIN oCall : oCall[k] = "no" THEN oPre \cup {c} ELSE oPre
-                /\ UNCHANGED oEarly
+NoCallYet == \A k \in DOMAIN oCall : oCall[k] = "no"
+ObsAccept(c) == /\ oPre' = IF NoCallYet THEN oPre \cup {c} ELSE oPre
+                /\ UNCHANGED <<oEarly, oPreReq, oGone>>
                 /\ UNCHANGED <<oBegun, oReturned, oDial, oLate, oEnt, oExit, oAns, oMust, oHS, oHE, oCall, oRet>>
+\* OnConnectDone{c} on the netpoll transport: the callback returned before any Shutdown call, the connection may be
+\* idle for netpoll again (netpoll closes idle connections when the shutdown begins; a request that arrives at that
+\* very moment may be entered and lose its response -- it was not "already received")
+ObsRelease(c) == /\ oPre' = IF NoCallYet THEN oPre \ {c} ELSE oPre
+                 /\ UNCHANGED <<oEarly, oPreReq, oGone>>
+                 /\ UNCHANGED <<oBegun, oReturned, oDial, oLate, oEnt, oExit, oAns, oMust, oHS, oHE, oCall, oRet>>
 
 \* Dial{c}: logged by the client before it dials
 OkDial(c) == c \in DOMAIN oDial /\ ~oDial[c]
@@ -165,7 +176,8 @@ OkHandlerEnter(c, r) == /\ c \in DOMAIN oEnt /\ oDial[c]
                         /\ ~oLate[c]
                         /\ ~(oEarly /\ c \in oPre)                            \* AcceptedAwaited
 ObsHandlerEnter(c) == /\ oEnt' = [oEnt EXCEPT ![c] = @ + 1]
-                      /\ UNCHANGED <<oBegun, oReturned, oDial, oLate, oExit, oAns, oMust, oHS, oHE, oCall, oRet, onew>>
+                      /\ oPreReq' = IF NoCallYet THEN oPreReq \cup {c} ELSE oPreReq
+                      /\ UNCHANGED <<oBegun, oReturned, oDial, oLate, oExit, oAns, oMust, oHS, oHE, oCall, oRet, oPre, oEarly, oGone>>
 
 \* HandlerExit{c, r, running}: last statement of the handler; running = Engine.IsRunning() read just before
 OkHandlerExit(c, r) == c \in DOMAIN oEnt /\ r = oEnt[c] /\ oExit[c] = r - 1
@@ -179,8 +191,14 @@ OkResponse(c, r, close, bytesOk) ==
     /\ c \in DOMAIN oEnt /\ r = oAns[c] + 1 /\ oExit[c] = r        \* a response only after its handler returned
     /\ bytesOk                                                     \* InFlightCompleted: untruncated, the handler's bytes
     /\ oMust[c] => close                                           \* CloseAnnounced
-ObsResponse(c) == /\ oAns' = [oAns EXCEPT ![c] = @ + 1]
-                  /\ UNCHANGED <<oBegun, oReturned, oDial, oLate, oEnt, oExit, oMust, oHS, oHE, oCall, oRet, onew>>
+ObsResponse(c) == /\ oAns' = [oAns EXCEPT ![c] = @ + 1] /\ oPreReq' = oPreReq \ {c}
+                  /\ UNCHANGED <<oBegun, oReturned, oDial, oLate, oEnt, oExit, oMust, oHS, oHE, oCall, oRet, oPre, oEarly, oGone>>
+
+\* ResponseNone{c}: the connection ended without a single byte of a response.  InFlightCompleted: never for a request
+\* that was already received (its handler entered) before the shutdown was requested.
+OkResponseNone(c) == c \in DOMAIN oEnt /\ c \notin oPreReq
+ObsResponseNone(c) == /\ oGone' = oGone \cup {c}
+                      /\ UNCHANGED <<oBegun, oReturned, oDial, oLate, oEnt, oExit, oAns, oMust, oHS, oHE, oCall, oRet, oPre, oEarly, oPreReq>>
 
 \* ShutdownCall{k}: logged before Shutdown is called.  A call made after the shutdown is known to have begun, or
 \* on a server that was never run, must report an error.
@@ -197,14 +215,14 @@ OkReturn(k, err, elapsed, wait, allHooks) ==
     /\ err = "nil" => \A j \in DOMAIN oRet : oRet[j] # "nil"                    \* SecondShutdownErrors
     /\ (err = "nil" /\ elapsed < wait) =>
            /\ oHE = allHooks                                                    \* HooksAwaited
-           /\ \A c \in DOMAIN oEnt : oExit[c] = oEnt[c]                         \* InFlightAwaited
+           /\ \A c \in oPreReq : oExit[c] = oEnt[c]                            \* InFlightAwaited
 ObsReturn(k, err, isEarly) ==
     /\ oRet' = [oRet EXCEPT ![k] = err]
     /\ oBegun' = (oBegun \/ err = "nil") /\ oReturned' = (oReturned \/ err = "nil")
     \* AcceptedAwaited: a nil return before the exit wait time says that every connection accepted before the call
     \* has been drained
     /\ oEarly' = (oEarly \/ (err = "nil" /\ isEarly))
-    /\ UNCHANGED <<oDial, oLate, oEnt, oExit, oAns, oMust, oHS, oHE, oCall, oPre>>
+    /\ UNCHANGED <<oDial, oLate, oEnt, oExit, oAns, oMust, oHS, oHE, oCall, oPre, oPreReq, oGone>>
 
 \* HookStart{h} / HookEnd{h}
 OkHookStart(h, allHooks) == h \in allHooks /\ h \notin oHS /\ \E k \in DOMAIN oCall : oCall[k] # "no"
@@ -219,7 +237,8 @@ OkDialAfter(result) == oReturned /\ result \in {"refused", "connectedButNeverSer
 
 \* End: the case is over (every client finished or gave up, every hook finished or the driver gave up)
 OkEnd(serverRun, allHooks) ==
-    /\ \A c \in DOMAIN oEnt : oExit[c] = oEnt[c] /\ oAns[c] = oEnt[c]           \* InFlightCompleted
+    /\ oPreReq = {}                                                            \* InFlightCompleted
+    /\ \A c \in DOMAIN oEnt : c \in oGone \/ (oExit[c] = oEnt[c] /\ oAns[c] = oEnt[c])
     /\ \A k \in DOMAIN oCall : oCall[k] # "no" => oRet[k] # None                \* nobody hangs
     /\ (serverRun /\ \E k \in DOMAIN oCall : oCall[k] # "no") => oHS = allHooks \* HooksStarted
 
